@@ -20,7 +20,16 @@ ENV.update({
     "GOFLAGS_VERIF": "1",
 })
 
-CONF = json.load(open(os.path.join(VERIF, "tools", "props.json")))
+def load_conf():
+    d = os.path.join(VERIF, "tools", "props.d")
+    out = {}
+    for f in sorted(os.listdir(d)):
+        if f.endswith(".json"):
+            out[f[:-5]] = json.load(open(os.path.join(d, f)))
+    return out
+
+
+CONF = load_conf()
 
 
 def log(*a):
@@ -52,14 +61,23 @@ def build(pid, conf):
     os.makedirs(os.path.join(BUILD, "bin"), exist_ok=True)
     ensure_gosum()
     overlay = []
+    repl = {}
+    ov = os.path.join(BUILD, "overlay-" + pid)
     if conf.get("overlay"):
-        ov = os.path.join(BUILD, "overlay-" + pid)
         r = sh(["go", "run", "./tools/mkoverlay", "-repo", REPO, "-out", ov], cwd=HARNESS,
                stdout=subprocess.PIPE, stderr=subprocess.STDOUT, text=True)
         if r.returncode != 0:
             log("INCONCLUSIVE: overlay generation failed\n" + r.stdout[-3000:])
             return None
-        overlay = ["-overlay", os.path.join(ov, "overlay.json")]
+        repl.update(json.load(open(os.path.join(ov, "overlay.json")))["Replace"])
+    extra = os.environ.get("VERIF_EXTRA_OVERLAY")
+    if extra:
+        # development aid only (never used by registered commands): try a candidate patch without touching /repo
+        repl.update(json.load(open(extra))["Replace"])
+    if repl:
+        os.makedirs(ov, exist_ok=True)
+        json.dump({"Replace": repl}, open(os.path.join(ov, "overlay.all.json"), "w"), indent=1)
+        overlay = ["-overlay", os.path.join(ov, "overlay.all.json")]
     out = os.path.join(BUILD, "bin", pid.lower() + ".test")
     cmd = ["go", "test", "-c", "-tags", "verif,without_dashboard", "-vet=off"] + overlay + \
           ["-o", out, "./" + conf["pkg"]]
@@ -82,6 +100,16 @@ def run_bin(binp, args, extra_env, timeout, logpath):
             return p.returncode
         except subprocess.TimeoutExpired:
             return -9
+
+
+def known_keys():
+    p = os.path.join(VERIF, "known_findings.json")
+    if not os.path.exists(p):
+        return ""
+    return ",".join(f["key"] for f in json.load(open(p))["findings"] if f["status"] == "known")
+
+
+ENV["VERIF_KNOWN"] = known_keys()
 
 
 def findings_for(pid):
